@@ -71,14 +71,14 @@ CHECKS = {
         level="fault_enumeration",
         technique="exhaustive fault enumeration on the real dump_one/dump_many/write_input: every subset of required attributes missing, every rejection reason, every faulty-frame index, an OSError injected at every k-th write call",
         text="Full products over formats x required-attribute subsets x allow_changes x {absent, pre-existing} target; prepare_dump rejection reasons; unselectable formats; dump_many with faulty frame 0/1/2/none/empty x list/generator; "
-        "write faults at every write call of the fault-free run (cap 200 quick / 2000 thorough); judged on exception type, preserved bytes, audit record of opens, closure of every opened file.",
+        "write faults at every write call of the fault-free run (cap 200 quick / 2000 thorough; at the first, second and last write also an exception without arguments); judged on exception type, preserved bytes, audit record of opens, closure of every opened file.",
         note="iodata.api.open replaced from outside by a counting/faulting wrapper; sys.addaudithook records opens; objects are the 3-atom default case of each format",
         design="DESIGN.md §2 C08",
     ),
     "C09": dict(
         level="exploration",
         technique="deviation-bounded enumeration over the 13 dump formats + full product (contraction x orbital kind x target x allow_changes); deep bit-exact snapshot of a twin object vs the dumped object",
-        text="Every object of the C02 space (k<=1 quick, k<=3 thorough; QCSchema always k>=2) is dumped with allow_changes False/True, three times, with read-only arrays and through dump_many; "
+        text="Every object of the C02 space (k<=1 quick, k<=3 thorough; QCSchema always k>=2) is dumped with allow_changes False/True, three times, with read-only arrays and through dump_many; a file written without conversion must denote the object; every ordered pair of wavefunction targets dumped from one object in a row (with / without a basis change in between) against a fresh object; "
         "objects needing conversion (generalized contractions, occs_aminusb) for every wavefunction target; write_input for both programs. Snapshots, member identity, return-value contract and "
         "equivalence of converted objects (density, spin density, nelec, spinpol, basis functions in order).",
         note="twin object built by the same deterministic constructor provides the 'before' snapshot, so observing does not disturb the object under test",
@@ -138,7 +138,7 @@ CHECKS = {
         text="65 API calls (every format's load/dump/write_input on corpus or generated data, failing calls, ghost atoms): each history starts from the initial interpreter state in a forked child; every step's result must equal the "
         "call alone in a fresh interpreter and the snapshot of all module-level tables and the warnings machinery must remain the initial state (1 state, self-loops only). Threads: all schedules with <=2 preemptions of pairs "
         "(thorough: 15 pairs + 2 triples) of 6 cheap calls, scheduling points at every line of the API wrapper and of catch_warnings.__enter__/__exit__; dense pass: pairs of calls into the SAME format module (5 pairs quick, 22 thorough) with a scheduling point at every line of iodata code (first 2 / 4 visits of each line per thread), all schedules with <=1 preemption; "
-        "interleaved frame iterators: every order of the 4+4 steps of two load_many iterators over 21 format pairs, plus an unrelated load_one at every position of three orders.",
+        "interleaved frame iterators: every order of the 4+4 steps of two load_many iterators over 21 format pairs, plus an unrelated load_one at every position of three orders; fault history: damaged siblings (every numeric token scaled / integer incremented) of 4-12 corpus files judged identically in a fresh child process and in one that loaded the intact file first; dense pass with 2 preemptions for xyz dump/dump (thorough: 3 pairs).",
         note="thread results compared with the same calls run alone; harness records warnings through one process-wide hook (no catch_warnings in threads); executions capped at 3000/60000 per group (cap recorded)",
         design="DESIGN.md §2 C16",
     ),
